@@ -90,9 +90,70 @@ pub fn generate(family: &str, seed: u64, n: usize) -> Vec<String> {
                 out.push(gen_state_req(&mut rng));
             }
         }
-        "optc" => {
+        "optc" | "optc_hard" | "optc_lj" => {
             while out.len() < n {
-                out.push(format!("opt run {} crystal {}", gen_cfg_small(&mut rng), gen_state_desc(&mut rng, true)));
+                let st = gen_state_desc(&mut rng, true);
+                if (family == "optc_hard" && !st.starts_with("hard")) || (family == "optc_lj" && !st.starts_with("lj")) {
+                    continue;
+                }
+                out.push(format!("opt run {} crystal {}", gen_cfg_small(&mut rng), st));
+            }
+        }
+        "state_hard" | "state_lj" => {
+            let want = if family == "state_hard" { " hard " } else { " lj " };
+            for r in generate("state", seed, 1)
+                .into_iter()
+                .chain(std::iter::empty())
+            {
+                let _ = r;
+            }
+            // the fixed from_group requests of the kind, then random ones
+            for r in generate("state", seed, 0).into_iter() {
+                if r.contains(want) {
+                    out.push(r);
+                }
+            }
+            while out.len() < n {
+                let r = gen_state_req(&mut rng);
+                if r.contains(want) {
+                    out.push(r);
+                }
+            }
+        }
+        "pair_hard" | "pair_lj" => {
+            while out.len() < n {
+                let r = gen_pair_req(&mut rng);
+                let lj = r.starts_with("pair lj2") || r.starts_with("pair energy") || r.contains(" ljcircle") || r.contains(" ljtrimer") || r.contains(" ljs ");
+                if (family == "pair_lj") == lj {
+                    out.push(r);
+                }
+            }
+        }
+        "json" => {
+            while out.len() < n {
+                let op = if rng.chance(1, 2) { "dump" } else { "roundtrip" };
+                let dense = rng.chance(1, 2);
+                let init = rng.chance(1, 8);
+                let st = gen_state_desc(&mut rng, dense);
+                if init {
+                    // the from_group state itself
+                    let toks: Vec<&str> = st.split(' ').collect();
+                    let gi = toks.iter().position(|t| GROUPS.contains(t)).unwrap_or(0);
+                    out.push(format!("json {} {} init", op, toks[..=gi].join(" ")));
+                } else {
+                    out.push(format!("json {} {}", op, st));
+                }
+            }
+        }
+        "svg" => {
+            while out.len() < n {
+                let dense = rng.chance(1, 2);
+                out.push(format!("svg uses {}", gen_state_desc(&mut rng, dense)));
+            }
+        }
+        "cli" => {
+            while out.len() < n {
+                out.push(gen_cli_req(&mut rng, "-"));
             }
         }
         "tables" => {
@@ -848,4 +909,32 @@ pub fn gen_cfg_small(rng: &mut Rng) -> String {
     let max_step = *rng.pick(&[0.01, 0.001, 0.1, 0.5, 1.0]);
     let conv = *rng.pick(&[None, None, Some(1e-3), Some(10.0)]);
     format!("{} {} {} {} {} {} {} {}", steps, inner, fhex(kt_start), ofh(kt_finish), ofh(kt_ratio), fhex(max_step), rng.below(1000), ofh(conv))
+}
+
+// ---------------------------------------------------------------- cli
+
+/// `cli run <threads> <replications> <steps> <inner> <kt_start|-> <kt_finish|-> <kt_ratio|-> <max_step|-> <conv|-> <group> <potential> <shape…>`
+pub fn gen_cli_req(rng: &mut Rng, threads: &str) -> String {
+    let reps = *rng.pick(&[0u64, 1, 1, 2, 3, 4]);
+    let steps = *rng.pick(&[0u64, 10, 20, 40, 60]);
+    let inner = *rng.pick(&[0u64, 5, 10, 20, 1000]);
+    let kt_start = *rng.pick(&[None, None, Some(0.0), Some(0.05), Some(1.0)]);
+    let kt_finish = *rng.pick(&[None, None, Some(0.001), Some(0.0)]);
+    let kt_ratio = *rng.pick(&[None, None, Some(0.1), Some(0.0)]);
+    let max_step = *rng.pick(&[None, Some(0.01), Some(0.1), Some(0.5)]);
+    let conv = *rng.pick(&[None, None, None, Some(1e-3)]);
+    let g = *rng.pick(&GROUPS);
+    let (pot, shape) = match rng.below(10) {
+        0..=3 => ("Hard", format!("polygon {}", *rng.pick(&[3usize, 4, 5, 6, 2, 8]))),
+        4 => ("LJ", format!("polygon {}", 4)),
+        5 => ("Hard", "circle".to_string()),
+        6 => ("LJ", "circle".to_string()),
+        7 => ("Hard", format!("trimer {} {} {}", fhex(0.637556), fhex(120.0), fhex(1.0))),
+        8 => ("LJ", format!("trimer {} {} {}", fhex(0.637556), fhex(120.0), fhex(1.0))),
+        _ => ("Hard", format!("trimer {} {} {}", fhex(rng.range(0.4, 1.0)), fhex(rng.range(60.0, 180.0)), fhex(rng.range(0.8, 1.4)))),
+    };
+    format!(
+        "cli run {} {} {} {} {} {} {} {} {} {} {} {}",
+        threads, reps, steps, inner, ofh(kt_start), ofh(kt_finish), ofh(kt_ratio), ofh(max_step), ofh(conv), g, pot, shape
+    )
 }
